@@ -78,6 +78,9 @@ func (n *Nodis) Clear() {
 	if err != nil {
 		log.Println("Clear: ", err)
 	}
+	n.notify(func() []patch.Op {
+		return []patch.Op{{Type: patch.OpTypeClear, Data: &patch.OpClear{}}}
+	})
 }
 
 func (n *Nodis) notify(f func() []patch.Op) {
